@@ -304,13 +304,23 @@ def run_nd(case):
     vals = core.spec_values(spec)
     dims, labels = spec["dims"], spec["labels"]
     idx = tuple(im.index_object(d) for d in descs)
+    dd = None
     if spelling == "getitem":
         f = lambda: a[idx]
     elif spelling == "take":
         f = lambda: a.take(idx)
     elif spelling == "dict":
+        # (one mapping object for all three spellings: an index argument is still there afterwards)
         dd = {d: i for d, i, de in zip(dims, idx, descs) if de["k"] != "full"}
-        f = lambda: a.take(dd)
+        dd_keys = list(dd)
+
+        def f():
+            r1 = a.take(dd)
+            r2 = a[dd]
+            r3 = a.loc[dd]
+            core.expect_equal_arrays(r2, r1, "a[{dim: index}] against take({dim: index})", sig={"mode": "nd"}) if hasattr(r1, "axes") and hasattr(r2, "axes") else None
+            core.expect_equal_arrays(r3, r1, "a.loc[{dim: index}] against take({dim: index})", sig={"mode": "nd"}) if hasattr(r1, "axes") and hasattr(r3, "axes") else None
+            return r1
     elif spelling == "ix":
         f = lambda: a.ix[idx]
     elif spelling == "iloc":
@@ -348,6 +358,8 @@ def run_nd(case):
         res = lib(f, what=what, sig=sig)
         im.check_getitem(res, vals, dims, labels, descs, what, sig=sig, kinds=True)
     core.expect_unchanged(a, snap, what, sig=sig)
+    if dd is not None:
+        check(list(dd) == dd_keys, "index-mapping-modified", {"what": what, "now": list(dd), "was": dd_keys}, sig)
     cl = []
     sl_dims = [i for i, d in enumerate(descs) if d["k"] in ("slice", "pslice")]
     if any(i > 0 for i in sl_dims):
